@@ -87,13 +87,75 @@ class _Canon(ast.NodeTransformer):
         n.values = [self._truth(v) for v in n.values]
         return n
 
+    def _itertools(self, f):
+        """name of the itertools function the callee expression `f` denotes under this module's imports (`itertools.count`,
+        `it.count` after `import itertools as it`, `count` / `c` after `from itertools import count [as c]`), else None"""
+        mods = getattr(self, "_it_mods", {"itertools"})
+        if isinstance(f, ast.Attribute) and isinstance(f.value, ast.Name) and f.value.id in mods:
+            return f.attr
+        if isinstance(f, ast.Name):
+            return getattr(self, "_it_names", {}).get(f.id)
+        return None
+
+    # ---- dict(zip(K, V)) with K a view of the keys and V a view of the values of ONE mapping d (d.keys() / d itself, d.values(), each
+    # possibly under map(f, ..) / list(..) / tuple(..))  ->  {f(k): g(v) for k, v in d.items()}: the same pairs in the same order
+    @staticmethod
+    def _dict_view(e):
+        fs = []
+        while True:
+            if isinstance(e, ast.Call) and isinstance(e.func, ast.Name) and not e.keywords and not any(isinstance(a, ast.Starred) for a in e.args):
+                if e.func.id in ("list", "tuple", "iter") and len(e.args) == 1:
+                    e = e.args[0]
+                    continue
+                if e.func.id == "map" and len(e.args) == 2 and isinstance(e.args[0], (ast.Name, ast.Attribute)):
+                    fs.append(e.args[0])
+                    e = e.args[1]
+                    continue
+            break
+        if isinstance(e, ast.Call) and isinstance(e.func, ast.Attribute) and e.func.attr in ("keys", "values") and not e.args and not e.keywords:
+            return e.func.value, e.func.attr, fs
+        return None
+
+    def _dict_zip(self, n):
+        if not (isinstance(n.func, ast.Name) and n.func.id == "dict" and len(n.args) == 1 and not n.keywords and isinstance(n.args[0], ast.Call)
+                and isinstance(n.args[0].func, ast.Name) and n.args[0].func.id == "zip" and len(n.args[0].args) == 2 and not n.args[0].keywords):
+            return None
+        k, v = (self._dict_view(a) for a in n.args[0].args)
+        if k is None or v is None or k[1] != "keys" or v[1] != "values" or ast.dump(k[0]) != ast.dump(v[0]):
+            return None
+        d = k[0]
+        b = d
+        while isinstance(b, ast.Attribute):
+            b = b.value
+        if not isinstance(b, ast.Name):
+            return None
+        import copy as _c
+
+        def wrap(name, fs):
+            e = ast.Name(id=name, ctx=ast.Load())
+            for f in reversed(fs):
+                e = ast.Call(func=_c.deepcopy(f), args=[e], keywords=[])
+            return e
+        tg = ast.Tuple(elts=[ast.Name(id="_zk", ctx=ast.Store()), ast.Name(id="_zv", ctx=ast.Store())], ctx=ast.Store())
+        items = ast.Call(func=ast.Attribute(value=d, attr="items", ctx=ast.Load()), args=[], keywords=[])
+        comp = ast.DictComp(key=wrap("_zk", k[2]), value=wrap("_zv", v[2]), generators=[ast.comprehension(target=tg, iter=items, ifs=[], is_async=0)])
+        return ast.fix_missing_locations(ast.copy_location(comp, n))
+
     # ---- position counters: zip(itertools.count([k]), X) / zip(range(len(X)), X)  ->  enumerate(X[, k])
     def visit_Call(self, n):
         self.generic_visit(n)
+        dz = self._dict_zip(n)
+        if dz is not None:
+            return dz
+        # dict((k, v) for .. in ..) / dict([(k, v) for ..])  ->  {k: v for .. in ..}
+        if isinstance(n.func, ast.Name) and n.func.id == "dict" and len(n.args) == 1 and not n.keywords and isinstance(n.args[0], (ast.GeneratorExp, ast.ListComp)) \
+                and isinstance(n.args[0].elt, (ast.Tuple, ast.List)) and len(n.args[0].elt.elts) == 2 and not any(isinstance(e, ast.Starred) for e in n.args[0].elt.elts):
+            g = n.args[0]
+            return ast.fix_missing_locations(ast.copy_location(ast.DictComp(key=g.elt.elts[0], value=g.elt.elts[1], generators=g.generators), n))
         if isinstance(n.func, ast.Name) and n.func.id == "zip" and len(n.args) == 2 and not n.keywords and not any(isinstance(a, ast.Starred) for a in n.args):
             c, x = n.args
             new = None
-            if isinstance(c, ast.Call) and not c.keywords and ast.unparse(c.func) == "itertools.count" and len(c.args) <= 1:
+            if isinstance(c, ast.Call) and not c.keywords and self._itertools(c.func) == "count" and len(c.args) <= 1:
                 new = [x] + list(c.args)
             elif isinstance(c, ast.Call) and not c.keywords and isinstance(c.func, ast.Name) and c.func.id == "range" and len(c.args) == 1 \
                     and isinstance(c.args[0], ast.Call) and isinstance(c.args[0].func, ast.Name) and c.args[0].func.id == "len" and len(c.args[0].args) == 1 \
@@ -107,6 +169,81 @@ class _Canon(ast.NodeTransformer):
         self.generic_visit(n)
         n.test = self._truth(n.test)
         return n
+
+    # ---- itertools.product(A, B, ..) in a `for` statement is the loop nest it abbreviates:
+    #      for a, b in product(A, B): S   ->   for a in A: for b in B: S
+    # (same pairs in the same order; applied when the operands are plain names / attribute chains that the body does not re-bind or
+    # mutate, so evaluating B once per row is the same, and when no `break` / `else` belongs to the loop -- `continue` keeps its
+    # meaning: on to the next tuple)
+    @staticmethod
+    def _own_break(stmts):
+        def rec(node):
+            for ch in ast.iter_child_nodes(node):
+                if isinstance(ch, ast.Break):
+                    return True
+                if isinstance(ch, (ast.For, ast.While, ast.FunctionDef, ast.AsyncFunctionDef, ast.Lambda, ast.ClassDef)):
+                    if any(isinstance(x, ast.Break) for s_ in getattr(ch, "orelse", []) for x in ast.walk(s_)):
+                        return True
+                    continue
+                if rec(ch):
+                    return True
+            return False
+        return any(isinstance(s_, ast.Break) or rec(s_) for s_ in stmts)
+
+    def visit_For(self, n):
+        n = self.generic_visit(n)
+        it = n.iter
+        if isinstance(it, ast.Call) and self._itertools(it.func) == "product" and len(it.args) >= 2 and not it.keywords and not n.orelse \
+                and isinstance(n.target, (ast.Tuple, ast.List)) and len(n.target.elts) == len(it.args) \
+                and not any(isinstance(a, ast.Starred) for a in it.args) and not any(isinstance(e, ast.Starred) for e in n.target.elts):
+            from .normalize import _pure, _stored
+            stored = _stored(n.body) | {x.id for x in ast.walk(n.target) if isinstance(x, ast.Name)}
+            ok = all(_pure(a) and isinstance(a, (ast.Name, ast.Attribute)) and not ({x.id for x in ast.walk(a) if isinstance(x, ast.Name)} & stored) for a in it.args)
+            if ok and not self._own_break(n.body):
+                body = n.body
+                for tg, a in reversed(list(zip(n.target.elts, it.args))):
+                    loop = ast.For(target=tg, iter=a, body=body, orelse=[], type_comment=None)
+                    ast.copy_location(loop, n)
+                    body = [loop]
+                return ast.fix_missing_locations(body[0])
+        return n
+
+    # ---- class-level constants: `NAME = <number | string>` in a class body, NAME in capitals (the convention for a value that is
+    # never overridden), never stored through an attribute anywhere in the module: `self.NAME` / `cls.NAME` / `<Class>.NAME` inside
+    # the methods of that class is that literal
+    def visit_ClassDef(self, n):
+        consts = {}
+        if not any("Enum" in ast.unparse(b) or "Flag" in ast.unparse(b) for b in n.bases):
+            for st in n.body:
+                if isinstance(st, ast.Assign) and len(st.targets) == 1 and isinstance(st.targets[0], ast.Name):
+                    nm, v = st.targets[0].id, st.value
+                elif isinstance(st, ast.AnnAssign) and isinstance(st.target, ast.Name) and st.value is not None:
+                    nm, v = st.target.id, st.value
+                else:
+                    continue
+                lit = v.operand if isinstance(v, ast.UnaryOp) and isinstance(v.op, (ast.USub, ast.UAdd)) else v
+                if nm.isupper() and isinstance(lit, ast.Constant) and isinstance(lit.value, (int, float, str)) and not isinstance(lit.value, bool) \
+                        and (lit is v or isinstance(lit.value, (int, float))):
+                    consts[nm] = None if nm in consts else v          # bound twice in the class body: not a constant
+            consts = {k: v for k, v in consts.items() if v is not None and k not in getattr(self, "_attr_stores", set())} if not getattr(self, "_attr_dyn", False) else {}
+        if consts:
+            import copy as _c
+            cname = n.name
+
+            class R(ast.NodeTransformer):
+                def visit_Attribute(self, a):
+                    self.generic_visit(a)
+                    if isinstance(a.ctx, ast.Load) and a.attr in consts and isinstance(a.value, ast.Name) and a.value.id in ("self", "cls", cname):
+                        return ast.copy_location(_c.deepcopy(consts[a.attr]), a)
+                    return a
+
+                def visit_ClassDef(self, c):
+                    return c            # a nested class has a `self` of its own
+            for st in n.body:
+                if isinstance(st, (ast.FunctionDef, ast.AsyncFunctionDef)):
+                    R().visit(st)
+            ast.fix_missing_locations(n)
+        return self.generic_visit(n)
 
     def visit_comprehension(self, n):
         self.generic_visit(n)
@@ -254,7 +391,54 @@ class _Canon(ast.NodeTransformer):
         new = ast.Assign(targets=[ast.Name(id=x, ctx=ast.Store())], value=comp)
         return ast.fix_missing_locations(ast.copy_location(new, init))
 
+    # ---- `T.update({"k1": v1, "k2": v2})` / `T.update(k1=v1)` written as a statement, keys literal: the item stores `T["k1"] = v1;
+    # T["k2"] = v2` it performs, in that order (T a name / attribute / constant-subscript chain, so naming it once per store is the same)
+    @staticmethod
+    def _update_stores(st):
+        if not (isinstance(st, ast.Expr) and isinstance(st.value, ast.Call) and isinstance(st.value.func, ast.Attribute) and st.value.func.attr == "update"):
+            return None
+        c, T = st.value, st.value.func.value
+        b = T
+        while isinstance(b, (ast.Attribute, ast.Subscript)):
+            if isinstance(b, ast.Subscript) and not isinstance(b.slice, ast.Constant):
+                return None
+            b = b.value
+        if not isinstance(b, ast.Name):
+            return None
+        pairs = []
+        if len(c.args) == 1 and isinstance(c.args[0], ast.Dict) and c.args[0].keys and all(isinstance(k, ast.Constant) and isinstance(k.value, str) for k in c.args[0].keys):
+            pairs += [(k, v) for k, v in zip(c.args[0].keys, c.args[0].values)]
+        elif c.args:
+            return None
+        if any(k.arg is None for k in c.keywords):
+            return None
+        pairs += [(ast.Constant(value=k.arg), k.value) for k in c.keywords]
+        if not pairs:
+            return None
+        import copy as _c
+        out = []
+        for k, v in pairs:
+            a = ast.Assign(targets=[ast.Subscript(value=_c.deepcopy(T), slice=k, ctx=ast.Store())], value=v)
+            for x in ast.walk(a.targets[0].value):
+                if hasattr(x, "ctx"):
+                    x.ctx = ast.Load()
+            ast.copy_location(a, v if hasattr(v, "lineno") else st)
+            out.append(ast.fix_missing_locations(a))
+        return out
+
+    @staticmethod
+    def _setattr_store(st):
+        """`setattr(x, "name", v)` written as a statement (literal identifier) is the attribute store `x.name = v`"""
+        if isinstance(st, ast.Expr) and isinstance(st.value, ast.Call) and isinstance(st.value.func, ast.Name) and st.value.func.id == "setattr" and len(st.value.args) == 3 \
+                and not st.value.keywords and isinstance(st.value.args[1], ast.Constant) and isinstance(st.value.args[1].value, str) and st.value.args[1].value.isidentifier() \
+                and not any(isinstance(a, ast.Starred) for a in st.value.args):
+            c = st.value
+            a = ast.Assign(targets=[ast.Attribute(value=c.args[0], attr=c.args[1].value, ctx=ast.Store())], value=c.args[2])
+            return [ast.fix_missing_locations(ast.copy_location(a, st))]
+        return None
+
     def _fold_loops(self, body):
+        body = [y for x in body for y in (self._update_stores(x) or self._setattr_store(x) or [x])]
         out = []
         i = 0
         while i < len(body):
@@ -277,11 +461,66 @@ class _Canon(ast.NodeTransformer):
                 setattr(node, fld, self._fold_loops(b))
         return node
 
+    @staticmethod
+    def _records(mod):
+        out, seen = {}, {}
+        for st in mod.body:
+            for x in ast.walk(st) if not isinstance(st, (ast.FunctionDef, ast.AsyncFunctionDef, ast.ClassDef)) else []:
+                if isinstance(x, ast.Name) and isinstance(x.ctx, (ast.Store, ast.Del)):
+                    seen[x.id] = seen.get(x.id, 0) + 1
+            if isinstance(st, (ast.FunctionDef, ast.AsyncFunctionDef, ast.ClassDef)):
+                seen[st.name] = seen.get(st.name, 0) + 1
+            if isinstance(st, ast.ClassDef) and any(ast.unparse(b).split(".")[-1] == "NamedTuple" for b in st.bases) and not st.decorator_list:
+                if not any(isinstance(x, ast.FunctionDef) and x.name in ("__new__", "__getattr__", "__getattribute__") for x in st.body):
+                    out[st.name] = tuple(x.target.id for x in st.body if isinstance(x, ast.AnnAssign) and isinstance(x.target, ast.Name))
+            elif isinstance(st, ast.Assign) and len(st.targets) == 1 and isinstance(st.targets[0], ast.Name) and isinstance(st.value, ast.Call) \
+                    and ast.unparse(st.value.func).split(".")[-1] == "namedtuple" and len(st.value.args) == 2 and not st.value.keywords:
+                f = st.value.args[1]
+                try:
+                    fv = ast.literal_eval(f)
+                except Exception:
+                    continue
+                if isinstance(fv, str):
+                    fv = fv.replace(",", " ").split()
+                if isinstance(fv, (list, tuple)) and fv and all(isinstance(x, str) and x.isidentifier() for x in fv):
+                    out[st.targets[0].id] = tuple(fv)
+        return {k: v for k, v in out.items() if seen.get(k, 0) == 1 and v}
+
     def visit_Module(self, n):
         # module-level tables `_NAME = (<literals>)` bound once and never mutated: a loop `for a, b in _NAME` inside a function
         # of the module is as static as one over a local literal (normalize.unroll_static_loops)
-        from .normalize import module_tables
+        from .normalize import module_tables, namedtuple_rows
+        n = namedtuple_rows(n)          # rows of namedtuple types are tuple displays (a table of them is a literal table)
         self._module_tables = module_tables(n)
+        # record types of the module (typing.NamedTuple classes, collections.namedtuple(..) bindings): name -> field names, attached to
+        # every function of the module so that value reconstruction (valueflow.Flow) can project `R(a, b).field` to the argument
+        recs = self._records(n)
+        for x in ast.walk(n):
+            if isinstance(x, (ast.FunctionDef, ast.AsyncFunctionDef)):
+                x._sa_records = recs
+        # how this module spells the itertools functions (used by _itertools)
+        self._it_mods, self._it_names = {"itertools"}, {}
+        bound = {}
+        for x in ast.walk(n):
+            if isinstance(x, ast.Import):
+                for a in x.names:
+                    if a.name == "itertools" and a.asname:
+                        self._it_mods.add(a.asname)
+            elif isinstance(x, ast.ImportFrom) and x.module == "itertools" and not x.level:
+                for a in x.names:
+                    self._it_names[a.asname or a.name] = a.name
+            elif isinstance(x, ast.Name) and isinstance(x.ctx, (ast.Store, ast.Del)):
+                bound[x.id] = True
+            elif isinstance(x, ast.arg):
+                bound[x.arg] = True
+        # a name that is also bound otherwise somewhere in the module is not trusted to mean the import
+        self._attr_stores = {x.attr for x in ast.walk(n) if isinstance(x, ast.Attribute) and isinstance(x.ctx, (ast.Store, ast.Del))} | \
+            {x.args[1].value for x in ast.walk(n) if isinstance(x, ast.Call) and isinstance(x.func, ast.Name) and x.func.id in ("setattr", "delattr") and len(x.args) >= 2
+             and isinstance(x.args[1], ast.Constant) and isinstance(x.args[1].value, str)}
+        self._attr_dyn = any(isinstance(x, ast.Call) and isinstance(x.func, ast.Name) and x.func.id in ("setattr", "delattr")
+                             and not (len(x.args) >= 2 and isinstance(x.args[1], ast.Constant)) for x in ast.walk(n))
+        self._it_names = {k: v for k, v in self._it_names.items() if k not in bound}
+        self._it_mods = {k for k in self._it_mods if k not in bound}
         return self.generic_visit(n)
 
     def visit_FunctionDef(self, n):
